@@ -5,7 +5,7 @@
      (Coq.Floats.SpecFloat, plain Gallina over Z, no axiom, no primitive float) at
      (prec, emax) = (24, 128) and (53, 1024); decimal <-> binary conversions are correctly
      rounded (XSD floatLexicalMap, Rust's dec2flt); `{:e}` formatting is "the shortest decimal
-     that reads back to the same number, the closest one if several".
+     that reads back to the same number, the closest one if several, the upper one on a tie".
    * decimal division: bigdecimal 0.4 `impl_division` with DEFAULT_PRECISION = 100.
    * xsd:dateTime: the lexical form accepted by XsdDateTime::new for ordinary years, its
      position on the (local or UTC) time line in nanoseconds, the XSD 3.2.7.4 order. *)
@@ -121,7 +121,9 @@ Fixpoint shortest (fuel : nat) (n : Z) (x : sf) (num den k : Z) : Z * Z :=   (* 
       let sh := k - n + 1 in
       let ok1 := sf_eqb (sf_of_dec10 false q sh) x && negb (q =? 0) in
       let ok2 := sf_eqb (sf_of_dec10 false (q + 1) sh) x in
-      if ok1 && ok2 then (if side <=? 0 then (q, sh) else (q + 1, sh))
+      (* both neighbours read back: the nearer one; on a tie core::fmt (flt2dec::strategy::dragon
+         format_shortest: `up && (!down || mant * 2 >= scale)`) rounds the last digit UP *)
+      if ok1 && ok2 then (if side <? 0 then (q, sh) else (q + 1, sh))
       else if ok1 then (q, sh)
       else if ok2 then (q + 1, sh)
       else shortest f (n + 1) x num den k
